@@ -13,7 +13,8 @@ Inductive inner_out :=
 | IErr                (* returns an error *)
 | IPanic              (* panics *)
 | ICancelErr          (* the caller's context is cancelled; returns the context's error *)
-| ICancelOk.          (* the caller's context is cancelled; returns nil all the same *)
+| ICancelOk           (* the caller's context is cancelled; returns nil all the same *)
+| IOkCancelAfter.     (* returns nil; the caller's context is cancelled right AFTER the COMMIT took effect *)
 
 Record tx_run := mkTxRun { begin_fault : bool; inner : inner_out; commit_fault : bool; rollback_fault : bool }.
 
@@ -34,6 +35,7 @@ Definition run_inner (i : inner_out) : option tx_res * bool * bool :=
   | IPanic => (Some RPanic, false, false)
   | ICancelErr => (Some RCtx, false, true)
   | ICancelOk => (None, true, true)
+  | IOkCancelAfter => (None, true, false)      (* what is committed is committed: the answer is nil *)
   end.
 
 (* the deferred function: COMMIT when the closure returned nil, ROLLBACK otherwise.
